@@ -67,12 +67,12 @@ def pairwise_opts(rng, extra=0):
 
 def option_plan(rng, tier, full=False):
     """Option sets run for ONE design (first = default): the four (sc, ei) representatives with default
-    layout, rows of a seeded pairwise-covering array (all of them when `full`, else 12 / 30), and the newline
+    layout, rows of a seeded pairwise-covering array (all of them when `full`, else 5 / 30), and the newline
     triples (unix/windows/auto) of some rows."""
     rows = [with_(DEFAULT, sc=sc, ei=ei) for sc in (0, 1) for ei in (0, 1)]
     pw = pairwise_opts(rng, extra=0 if tier == "quick" else 24)
     if not full:
-        pw = rng.sample(pw, min(12 if tier == "quick" else 30, len(pw)))
+        pw = rng.sample(pw, min(5 if tier == "quick" else 30, len(pw)))
     rows += pw
     pick = rng.sample(pw, min(4 if (full or tier != "quick") else 1, len(pw)))
     for r in pick:
@@ -223,6 +223,22 @@ def line_endings(src):
     return lf, crlf
 
 
+def embed_text(src):
+    """text of all embed {{{ ... }}} blocks of a Veryl source (copied verbatim into the output)"""
+    out = []
+    i = 0
+    while True:
+        a = src.find("{{{", i)
+        if a < 0:
+            break
+        b = src.find("}}}", a + 3)
+        if b < 0:
+            b = len(src)
+        out.append(src[a + 3:b])
+        i = b + 3
+    return "\n".join(out)
+
+
 def source_newline(src):
     """format.rs auto_detect_newline_style on a Linux host"""
     p = src.find("\n")
@@ -272,6 +288,7 @@ def split_top(sg, sep):
 
 
 O = lambda s: ("op", s)
+ONE_B1 = [("num", "1"), ("num", "'b1")]      # the lexer splits a sized literal into size and based part
 EXCL = ("mark", "excl")     # marker token inserted in front of `)-1]` printed for an exclusive range
 
 
@@ -400,7 +417,7 @@ def expand_model(sg, stats=None):
         if t == ("id", "case") and i + 1 < n and sg[i + 1] == O("("):
             j = match_close(sg, i + 1)
             xraw = sg[i + 2:j]
-            if xraw != [("num", "1'b1")]:
+            if xraw != ONE_B1:
                 x = expand_model(xraw, stats)
                 p = j + 1
                 if p < n and sg[p] == ("id", "inside"):
@@ -408,7 +425,7 @@ def expand_model(sg, stats=None):
                     stats["case_inside"] = stats.get("case_inside", 0) + 1
                 else:
                     stats["case_plain"] = stats.get("case_plain", 0) + 1
-                out += [("id", "case"), O("("), ("num", "1'b1"), O(")")]
+                out += [("id", "case"), O("(")] + ONE_B1 + [O(")")]
                 # items
                 while sg[p] != ("id", "endcase"):
                     # comments between items stay where they are
@@ -634,7 +651,7 @@ class Gen:
         if k < 0.88:
             return "%s%s" % (r.choice(["~", "!", "-", "&", "|"]), r.choice(names))
         if k < 0.94:
-            return "if %s ? %s : %s" % (r.choice(names), self.expr(d + 1, names), self.expr(d + 1, names))
+            return "(if %s ? %s : %s)" % (r.choice(names), self.expr(d + 1, names), self.expr(d + 1, names))
         return "{%s, %s}" % (self.expr(d + 1, names), self.expr(d + 1, names))
 
     def rng_item(self, names):
